@@ -120,6 +120,33 @@ CHECKS = {
              'diagnostic and accepted ones are simplified, printed and evaluated on diverse messages; every command line '
              'produces output or an error line and leaves the session usable. A slice runs the real CLI under C and C.utf8.',
         ref='3/C18', engine='PROD'),
+    'C09': dict(
+        technique='exhaustive product enumeration of libwayland closures laid out in real (ctypes) memory and read by '
+                  'the real extractor through a GDB API model; the model is bound to GDB 13.1 by replaying scripts through a '
+                  'C stub under the real GDB',
+        text='Closures for every signature to length 2/3, every kind at every position to 20, the array x follower '
+             'table, value lattices, ?/version placements, client/server x invoke/dispatch/send/queue are decoded by the '
+             'real extract.* and compared with a reference reading, and cross-checked against the printer model decoded '
+             'by the real log parser; a scenario history is run through both modes after resolution.',
+        ref='3/C09', engine='PROD',
+        note=TRUSTED + ' The GDB Python API is modelled (mc/fakegdb/gdb.py); the thorough tier replays 680+ closures in '
+             'the installed GDB 13.1 and requires identical plugin output.'),
+    'C10': dict(
+        technique='explicit-state BFS over plugin event histories (messages, wl commands, continue) on the real plugin '
+                  'and controller in a GDB API model, merged on the reference pause machine; exhaustive enumeration of '
+                  'command lists for the terminal prompt loop',
+        text='In every reached state stop() must return True iff the reference breakpoint (C12 accumulation, hand '
+             'denotations) and selection hold, with exactly one Stopped-at notice; after each command GDB is told quit / '
+             'continue / nothing as the reference says; the prompt loop of file/run mode asks exactly until resume or quit.',
+        ref='3/C10', engine='BFS'),
+    'C15': dict(
+        technique='explicit-state BFS over libwayland events (messages on 2 addresses from 2 threads, destructions of '
+                  'known / closed / never-seen connections) on the real plugin in a GDB API model, merged on a reference '
+                  'connection registry; depth-4 histories replayed in the real GDB',
+        text='Every event history to depth 5/7: connections open at the first message with the role get_registry '
+             'implies, close on destruction, an address seen again is a new connection with a fresh object table, and '
+             'nothing escapes the breakpoint handlers, which never halt the program.',
+        ref='3/C15', engine='BFS'),
 }
 
 NOT_YET = 'check under construction in this round; will be claimed when mc/props/%s.py lands'
